@@ -386,7 +386,7 @@ Lemma enc_decision_not_panic cp l : enc_decision cp l <> EncPanic.
 Proof.
   unfold enc_decision. pose proof (choose_cert_str_not_panic l) as H.
   destruct (choose_cert_str l) as [[c|]| |]; try discriminate; [|contradiction].
-  destruct (cp c); discriminate.
+  destruct (cp (strip_ws c)); discriminate.
 Qed.
 
 Lemma make_assertion_el_not_panic cfg cp rt a rnd : make_assertion_el cfg cp rt a rnd <> Panic.
@@ -1014,7 +1014,7 @@ Theorem sp_metadata_registers sp cert id issue dest cp :
     ep_location e = sp_acs sp /\ ep_binding e = post_binding /\
     In d (descriptors (sp_metadata sp cert)) /\
     (sp_key sp = None \/ sp_key_rsa sp = false -> enc_decision cp (kds d) = Plain) /\
-    (forall k, sp_key sp = Some k -> sp_key_rsa sp = true -> cert <> "" -> cp cert = CertRsaKey k ->
+    (forall k, sp_key sp = Some k -> sp_key_rsa sp = true -> cert <> "" -> cp (strip_ws cert) = CertRsaKey k ->
                enc_decision cp (kds d) = EncryptTo k).
 Proof.
   eexists _, _. split; [|split; [|split; [|split; [|split]]]].
@@ -1192,4 +1192,104 @@ Theorem sp_undecryptable_is_error sp e :
 Proof.
   intro H. unfold sp_extract. destruct (sp_key sp) as [k|]; [|reflexivity].
   unfold sym_decrypt. specialize (H k eq_refl). destruct (k =? en_recipient e) eqn:E; [lia | reflexivity].
+Qed.
+
+(* ---------- C08: an encryption error leaves nothing behind in the request object ---------- *)
+Lemma make_assertion_el_enc_err cfg cp rt a rnd :
+  enc_decision cp (kds (rt_desc rt)) = EncErr -> exists c, make_assertion_el cfg cp rt a rnd = Err c.
+Proof.
+  intro H. unfold make_assertion_el. destruct (signing_context cfg) as [ctx| |] eqn:E; cbn [bind].
+  - rewrite H. eauto.
+  - eauto.
+  - unfold signing_context in E. destruct (mem_str _ _); discriminate.
+Qed.
+
+Lemma do_step_enc_err x s :
+  enc_decision (sx_cp x) (kds (rt_desc (sx_rt x))) = EncErr ->
+  exists c, do_step x s st_empty = (st_empty, Err c).
+Proof.
+  intro H. destruct (make_assertion_el_enc_err (sx_cfg x) (sx_cp x) (sx_rt x) (sx_a x) (sx_rnd x) H) as [c Hc].
+  assert (A : do_make_ael x st_empty = (st_empty, Err c)) by (unfold do_make_ael; rewrite Hc; reflexivity).
+  assert (R : do_make_response x st_empty = (st_empty, Err c)).
+  { unfold do_make_response. cbn [st_ael st_empty]. rewrite A. reflexivity. }
+  exists c. destruct s; cbn [do_step]; [exact A | exact R |].
+  unfold do_post_binding. cbn [st_resp st_empty]. rewrite R. reflexivity.
+Qed.
+
+(* whatever sequence of MakeAssertionEl / MakeResponse / PostBinding (WriteResponse)
+   calls a caller makes, ignoring the errors: every call is an error and
+   req.AssertionEl and req.ResponseEl stay nil *)
+Theorem steps_enc_error_leave_nothing x l :
+  enc_decision (sx_cp x) (kds (rt_desc (sx_rt x))) = EncErr ->
+  exists os, run_steps x l st_empty = (st_empty, os) /\ Forall (fun z => z = 1) os
+             /\ List.length os = List.length l.
+Proof.
+  intro H. induction l as [|s r IH].
+  - exists []. repeat split. constructor.
+  - destruct IH as (os & Hr & Hall & Hlen). destruct (do_step_enc_err x s H) as [c Hc].
+    exists (1 :: os). cbn [run_steps]. rewrite Hc, Hr. cbn [ocls]. repeat split.
+    + constructor; [reflexivity | exact Hall].
+    + cbn [List.length]. rewrite Hlen. reflexivity.
+Qed.
+
+Lemma forallb_all_one os : Forall (fun z => z = 1) os -> forallb (fun z => z =? 1) os = true /\ forallb (fun z => negb (z =? 2)) os = true.
+Proof. induction 1 as [|z r Hz _ [IH1 IH2]]; [split; reflexivity|]. subst z. cbn. rewrite IH1, IH2. split; reflexivity. Qed.
+
+Lemma do_step_not_panic x s st : snd (do_step x s st) <> Panic.
+Proof.
+  assert (A : forall st, snd (do_make_ael x st) <> Panic).
+  { intro st0. unfold do_make_ael. pose proof (make_assertion_el_not_panic (sx_cfg x) (sx_cp x) (sx_rt x) (sx_a x) (sx_rnd x)) as N.
+    destruct (make_assertion_el _ _ _ _ _); cbn [snd]; try discriminate. contradiction. }
+  assert (A' : forall st st1 r1, do_make_ael x st = (st1, r1) -> r1 = Ok tt -> st_ael st1 <> None).
+  { intros st0 st1 r1. unfold do_make_ael. destruct (make_assertion_el _ _ _ _ _); intro E; injection E as <- <-; intro; try discriminate; try (cbn; discriminate). }
+  assert (R : forall st, snd (do_make_response x st) <> Panic).
+  { intro st0. unfold do_make_response.
+    destruct (st_ael st0) as [ael|] eqn:Ea.
+    - rewrite Ea. pose proof (make_response_not_panic (sx_cfg x) (sx_rt x) (sx_rq x) (sx_now x) ael (sx_rand x)) as N.
+      destruct (make_response _ _ _ _ _ _); cbn [snd]; try discriminate. contradiction.
+    - destruct (do_make_ael x st0) as [st1 r1] eqn:E. pose proof (A st0) as N. rewrite E in N. cbn [snd] in N.
+      destruct r1 as [u| |]; cbn [snd]; try discriminate; [|contradiction].
+      pose proof (A' _ _ _ E) as S. destruct u. specialize (S eq_refl).
+      destruct (st_ael st1) as [ael|]; [|contradiction].
+      pose proof (make_response_not_panic (sx_cfg x) (sx_rt x) (sx_rq x) (sx_now x) ael (sx_rand x)) as N2.
+      destruct (make_response _ _ _ _ _ _); cbn [snd]; try discriminate. contradiction. }
+  destruct s; cbn [do_step]; [apply A | apply R |].
+  unfold do_post_binding. destruct (st_resp st).
+  - cbn [snd]. destruct (negb _); discriminate.
+  - destruct (do_make_response x st) as [st1 r1] eqn:E. pose proof (R st) as N. rewrite E in N. cbn [snd] in N.
+    destruct r1; cbn [snd]; try discriminate; [destruct (negb _); discriminate | contradiction].
+Qed.
+
+Lemma run_steps_no_panic x l : forall st, forallb (fun z => negb (z =? 2)) (snd (run_steps x l st)) = true.
+Proof.
+  induction l as [|s r IH]; intro st; [reflexivity|].
+  cbn [run_steps]. destruct (do_step x s st) as [st1 o] eqn:E.
+  destruct (run_steps x r st1) as [st2 os] eqn:E2. cbn [snd forallb].
+  pose proof (do_step_not_panic x s st) as N. rewrite E in N. cbn in N.
+  specialize (IH st1). rewrite E2 in IH. cbn in IH. rewrite IH.
+  destruct o; cbn; try reflexivity. contradiction.
+Qed.
+
+(* the step monitor holds of the model's own run *)
+Theorem c08s_spec_of_model base steps :
+  match c06_route base with
+  | None => True
+  | Some r =>
+      let '(st, os) := run_steps (c08s_ctx base r) (map step_of steps) st_empty in
+      c08s_spec {| s8_base := base; s8_steps := steps; s8_results := os;
+                   s8_ael_set := is_some (st_ael st); s8_resp_set := is_some (st_resp st) |} = true
+  end.
+Proof.
+  destruct (c06_route base) as [r|] eqn:Er; [|exact I].
+  destruct (run_steps (c08s_ctx base r) (map step_of steps) st_empty) as [st os] eqn:E.
+  unfold c08s_spec. cbn [s8_base s8_results s8_ael_set s8_resp_set].
+  pose proof (run_steps_no_panic (c08s_ctx base r) (map step_of steps) st_empty) as NP. rewrite E in NP. cbn in NP.
+  rewrite NP. cbn [andb]. unfold c08_kds. rewrite Er. destruct r as [[[di ei] d] e].
+  destruct (enc_decision_decl (cp_of_list (c6_certs base)) (kds d)) eqn:Ed; try reflexivity.
+  rewrite <- enc_decision_spec in Ed.
+  assert (Hx : enc_decision (sx_cp (c08s_ctx base (di, ei, d, e))) (kds (rt_desc (sx_rt (c08s_ctx base (di, ei, d, e))))) = EncErr).
+  { unfold c08s_ctx. destruct (make_assertion _ _ _ _ _ _ _ _) as [a rand']. cbn. exact Ed. }
+  destruct (steps_enc_error_leave_nothing _ (map step_of steps) Hx) as (os' & Hr & Hall & _).
+  rewrite E in Hr. injection Hr as -> ->. apply forallb_all_one in Hall. destruct Hall as [H1 _].
+  rewrite H1. reflexivity.
 Qed.
